@@ -8,6 +8,7 @@ EXPLANATION = (
     "and in handle_last_will; handle_last_will publishes exactly the removed entry (topic, payload, retain, qos come from it), so a will can fire at most once per registration; "
     "(R-C16-fire) in server::broker::remote every path after RemoteLink::new succeeded reaches the will wait (timeout on will_rx), Event::PublishWill is sent only under publish_will, "
     "and Event::Disconnect is sent unless the link ended with remote::Error::Link (router-initiated). "
+    "(R-C16-key) the keys agree: every link's Incoming and Outgoing buffers are created with Connection::new(..).client_id (tenant prefix included), and the will table is keyed by those client_id fields; "
     "NOT decided: ordering of PublishWill against Disconnect processing in the router channel; delay timing.")
 ASSUMPTIONS = ["rustc MIR construction is correct"]
 TECHNIQUE = "static analysis: who-may-write on the will table, provenance of the published will, must-pass / control-dependence rules in the connection task's async body (pre-lowering MIR)"
@@ -19,6 +20,7 @@ def run(ctx):
     prog = ctx.progs["rumqttd"]
     ctx.guarded("R-C16-register", register, ctx, prog)
     ctx.guarded("R-C16-fire", fire, ctx, prog)
+    ctx.guarded("R-C16-key", key_agreement, ctx, prog)
 
 
 def register(ctx, prog):
@@ -164,3 +166,48 @@ def fire(ctx, prog):
         ctx.ok(rule, body.id, "Event::Disconnect is suppressed only when the link ended with remote::Error::Link")
     else:
         ctx.violation(rule, body.id, "disconnect suppression", "the flag that suppresses Event::Disconnect is cleared outside the remote::Error::Link arm", site=body.fn_loc())
+
+
+def key_agreement(ctx, prog):
+    """The will is registered under outgoing.client_id (handle_new_connection), cancelled under
+    incoming.client_id (DISCONNECT arm) and fired under the id the connection task sends with PublishWill.
+    These agree only if a link's Incoming and Outgoing buffers are both created with the connection's effective
+    client id (tenant prefix included): Incoming::new(x) / Outgoing::new(y) take x, y = Connection::new(..).client_id."""
+    rule = "R-C16-key"
+    n = 0
+    for body in prog.A.values():
+        sites = [(bb, t) for bb, t in body.calls() if re.search(r"router::iobufs::(Incoming|Outgoing)::new$", callee_path(t)) and not body.is_cleanup(bb)]
+        if not sites:
+            continue
+        for bb, t in sites:
+            n += 1
+            src = [x for x in flatten_src(provenance(body, t["args"][0], through_calls=[r"ToOwned>::to_owned$", r"Clone>::clone$"]))
+                   if not (x.kind == "call" and re.search(r"ToOwned>::to_owned$|Clone>::clone$", x.path))]
+            what = callee_path(t).rsplit("::", 2)[-2]
+            if src and all(x.kind == "call" and x.path.endswith("connection::Connection::new") and x.fields[-1:] == ["client_id"] for x in src):
+                ctx.ok(rule, body.id, "%s::new is given the connection's effective client id (Connection::new(..).client_id)" % what, site=body.loc(t.get("sp")))
+            else:
+                ctx.violation(rule, body.id, "%s buffer id" % what,
+                              "%s::new is created with an id that is not Connection::new(..).client_id: for tenant connections the will is then registered, cancelled and fired under different keys (a clean DISCONNECT no longer cancels it)" % what,
+                              site=body.loc(t.get("sp")))
+    ctx.floor(rule, "Incoming::new / Outgoing::new call sites", n, 2)
+    # the three users of the key read it from those buffers / the connection
+    hn = prog.one(r"^router::routing::Router::handle_new_connection$")
+    hd = prog.one(r"^router::routing::Router::handle_device_payload$")
+    for body, method, want in ((hn, "insert", "outgoing"), (hd, "remove", "incoming")):
+        found = False
+        for bb, t in body.calls():
+            if body.is_cleanup(bb) or not callee_path(t).endswith("HashMap::<K, V, S, A>::" + method):
+                continue
+            fs = [x.split(".")[-1] for x in (receiver_fields(body, t) or [])]
+            if fs[-1:] != ["last_wills"]:
+                continue
+            found = True
+            src = [x for x in flatten_src(provenance(body, t["args"][1], through_calls=[r"Clone>::clone$"])) if not (x.kind == "call" and x.path.endswith("Clone>::clone"))]
+            okk = bool(src) and all(getattr(x, "fields", None) and x.fields[-1] == "client_id" for x in src)
+            if okk:
+                ctx.ok(rule, body.id, "last_wills.%s is keyed by a client_id field (%s buffer)" % (method, want), site=body.loc(t.get("sp")))
+            else:
+                ctx.violation(rule, body.id, "last_wills.%s key" % method, "the will table is accessed with a key that is not a client_id field", site=body.loc(t.get("sp")))
+        if not found:
+            ctx.anchor_missing(rule, "last_wills.%s in %s" % (method, body.id))
